@@ -142,6 +142,12 @@ func findClosest(query fastaio.EncodedFastaRecord, measure string, cIn chan fast
 			distance = tn93Distance(query, target)
 		}
 
+		// an undefined distance (e.g. no site resolved in both sequences) must
+		// sort after every defined one, and NaN does not compare
+		if math.IsNaN(distance) {
+			distance = math.Inf(1)
+		}
+
 		if first {
 			snps = make([]string, 0)
 			for i, tNuc := range target.Seq {
